@@ -29,7 +29,7 @@ func init() {
 		ID:       "C07",
 		Patterns: codecPatterns(),
 		Explanation: "Linear non-negative bounds analysis (no solver) over the SSA of every xprotocol decoder and matcher: lengths, wire length fields (keyed by buffer, offset, width so the same field read in caller and callee is one atom) and IoBuffer.Len()/len(Bytes()) are atoms; facts come from dominating guard edges; obligations a callee cannot discharge are lifted to its call sites. " +
-			"(B1) every index/slice/binary.UintN on bytes is within len (not cap) of what has arrived; (B2) Drain(n) only with n <= Len proven, n equals the length of the frame slice taken from offset 0, no Drain may precede a (nil,nil) return, and every need-more-data edge has the form Len < X with X <= n (tight: a complete frame is never held back) or X a constant <= the codec's minimal frame; (B3) matchers return MatchAgain exactly below a constant width <= the minimal frame and never decide on fewer bytes than they read; (B2d) Dispatch loops until empty/(nil,nil)/error and hands each decoded frame to handleFrame exactly once. (B2h) MFramer (HTTP/2): accesses in readFrameHeader/ReadFrame/ReadPreface are bounded (offsets non-negative by induction over call sites); a loop that re-reads frames at an offset advances it or drains; ReadFrame drains once, last, by the size it reports, after the header block was assembled; the connection HPACK decoder is written only when no further ReadFrame can follow. (B3s) SelectStreamFactoryProtocol returns a protocol only on the nil answer of its matcher, keeps need-more-data sticky across candidates and answers FAILED only when nobody asked for more; proxy.OnData waits on EAGAIN without consuming. (B2r) every content-discarding call on connection.readBuffer in pkg/network is guarded by readBuffer.Len()==0, directly or at every caller. (B2t) in tarsProtocol.Decode every call receiving the buffer or its bytes (other than TarsRequest) and every error exit lies under status == PACKAGE_FULL (an error under PACKAGE_ERROR is accepted).",
+			"(B1) every index/slice/binary.UintN on bytes is within len (not cap) of what has arrived; (B2) Drain(n) only with n <= Len proven, n equals the length of the frame slice taken from offset 0, no Drain may precede a (nil,nil) return, and every need-more-data edge has the form Len < X with X <= n (tight: a complete frame is never held back) or X a constant <= the codec's minimal frame; (B3) matchers return MatchAgain exactly below a constant width <= the minimal frame and never decide on fewer bytes than they read; (B2d) Dispatch loops until empty/(nil,nil)/error and hands each decoded frame to handleFrame exactly once. (B2h) MFramer (HTTP/2): accesses in readFrameHeader/ReadFrame/ReadPreface are bounded (offsets non-negative by induction over call sites); a loop that re-reads frames at an offset advances it or drains; ReadFrame drains once, last, by the size it reports, after the header block was assembled; the connection HPACK decoder is written only when no further ReadFrame can follow. (B3s) SelectStreamFactoryProtocol returns a protocol only on the nil answer of its matcher, keeps need-more-data sticky across candidates and answers FAILED only when nobody asked for more; proxy.OnData waits on EAGAIN without consuming. (B2r) every content-discarding call on connection.readBuffer in pkg/network is guarded by readBuffer.Len()==0, directly or at every caller. (B2t) in tarsProtocol.Decode every call receiving the buffer or its bytes (other than TarsRequest) and every error exit lies under status == PACKAGE_FULL (an error under PACKAGE_ERROR is accepted). (B2, round 7) a constant need-more-data guard that dominates a GetXProtocolCodec(name) delegation is at most that protocol's minimal frame; (B1) the parse*Frame functions of pkg/module/http2 are in scope and s[:h] with a difference h needs h >= 0.",
 		Run: runC07,
 	})
 }
@@ -174,6 +174,9 @@ func (br *boundsRun) needsOf(fn *ssa.Function) []boundNeed {
 					out = append(out, boundNeed{ln.add(hi, -1), fmt.Sprintf("slice high %s <= len", hi), in, "slice-high"})
 					if x.Low != nil {
 						out = append(out, boundNeed{hi.add(lo, -1), fmt.Sprintf("slice low %s <= high %s", lo, hi), in, "slice-order"})
+					} else if !ba.isNonNeg(hi) {
+						// s[:h] with an h that is a difference: h >= 0 is an obligation of its own
+						out = append(out, boundNeed{hi, fmt.Sprintf("slice high %s >= 0", hi), in, "slice-high-nonneg"})
 					}
 				} else if x.Low != nil {
 					out = append(out, boundNeed{ln.add(lo, -1), fmt.Sprintf("slice low %s <= len", lo), in, "slice-low"})
@@ -580,6 +583,29 @@ func (br *boundsRun) runB2(decodes []*ssa.Function, rule string) {
 				}
 				tight := true
 				if X.isConst() && X.C <= minFrame[codecName(fn)] {
+					// a decoder that hands frames of another protocol on to that protocol's engine (bolt <-> boltv2) must not
+					// hold back more bytes than the *smallest* frame it can be given: the guard applies to every delegation
+					// that lies on its continuing side
+					short := ""
+					if contBlk := otherSucc(e.If, rb); contBlk != nil {
+						forEachInstr(fn, false, func(_ *ssa.Function, x ssa.Instruction) {
+							ci, ok := x.(ssa.CallInstruction)
+							if !ok || !strings.HasSuffix(calleeName(ci.Common()), "GetXProtocolCodec") || len(ci.Common().Args) != 1 {
+								return
+							}
+							name, isK := constStringVal(stripIface(ci.Common().Args[0]))
+							if !isK {
+								return
+							}
+							if mf, known := minFrame[name]; known && X.C > mf && contBlk.Dominates(x.Block()) {
+								short = fmt.Sprintf("%s frames (minimal %d bytes) are handed to the %s engine only once %d bytes are buffered", name, mf, name, X.C)
+							}
+						})
+					}
+					if short != "" {
+						c.Fail(rule, key, nearestPos(e.If), "need-more-data guard `Len < "+X.String()+"` holds back complete frames of a protocol this decoder delegates to: "+short+" - a short frame that is the last thing in the read buffer is never extracted, so what comes out depends on how TCP segmented the stream")
+						continue
+					}
 					c.Pass(rule, key, nearestPos(e.If), fmt.Sprintf("need more data while Len < %d (constant <= minimal well-formed %s frame %d)", X.C, codecName(fn), minFrame[codecName(fn)]))
 					continue
 				}
@@ -996,4 +1022,27 @@ func currentFieldLoad(fn *ssa.Function, base ssa.Value, field string, at ssa.Ins
 func isPureBuiltin(c *ssa.Call) bool {
 	b, ok := c.Call.Value.(*ssa.Builtin)
 	return ok && (b.Name() == "len" || b.Name() == "cap")
+}
+
+
+// otherSucc: the successor of the If that is not blk (the side on which the function continues).
+func otherSucc(ifi *ssa.If, blk *ssa.BasicBlock) *ssa.BasicBlock {
+	b := ifi.Block()
+	if len(b.Succs) != 2 {
+		return nil
+	}
+	if b.Succs[0] == blk {
+		return b.Succs[1]
+	}
+	if b.Succs[1] == blk {
+		return b.Succs[0]
+	}
+	// blk is reached through one of the successors: the other one continues
+	if b.Succs[0].Dominates(blk) {
+		return b.Succs[1]
+	}
+	if b.Succs[1].Dominates(blk) {
+		return b.Succs[0]
+	}
+	return nil
 }
